@@ -731,3 +731,105 @@ func (g *G) genRepeatCase(p *Profile, id string) *Case {
 	}
 	return c
 }
+
+// simple reply used by the targeted generators
+func tRep(idx, status int, cc string, extra ...Hdr) Rep {
+	hs := []Hdr{{"X-Call", []string{strconv.Itoa(idx)}}}
+	if status != 304 && status != 204 {
+		hs = append(hs, Hdr{"Content-Length", []string{strconv.Itoa(len(fmt.Sprintf("b%d.", idx)))}})
+	}
+	if cc != "" {
+		hs = append(hs, Hdr{"Cache-Control", []string{cc}})
+	}
+	hs = append(hs, extra...)
+	return Rep{Status: status, BodyOK: true, Hdrs: hs}
+}
+
+// genLateRevalCase (C07): a stale-while-revalidate background validation is still in flight when an
+// unsafe request for the same target (or one naming it in Location / Content-Location) succeeds; the
+// answer to the validation arrives afterwards; then the target is requested again.
+func (g *G) genLateRevalCase(p *Profile, id string) *Case {
+	c := &Case{ID: id, Stream: "M", SWRTimeout: g.pickD(0, 5*time.Second, 10*time.Second)}
+	res := g.intn(4)
+	D := g.pickD(2*time.Second, 3*time.Second, 4*time.Second)
+	hdrs := g.selectingHeaders()
+	get := func(gap time.Duration) Req {
+		return Req{Gap: gap, Method: "GET", URL: g.urlFor(res, g.chance(0.4)), Hdrs: hdrs}
+	}
+	unsafe := Req{Gap: g.pickD(300*time.Millisecond, 700*time.Millisecond, time.Second), Method: g.pick("POST", "PUT", "DELETE", "PATCH", "FOO", "LOCK"),
+		URL: g.urlFor(res, g.chance(0.4))}
+	var loc []Hdr
+	if g.chance(0.3) {
+		// another resource of the same host, whose reply names the target
+		other := (res + 2) % 4
+		unsafe.URL = g.urlFor(other, false)
+		loc = []Hdr{{g.pick("Location", "Content-Location"), []string{g.pick(paths[(res/len(hosts))%len(paths)], g.urlFor(res, false))}}}
+	}
+	c.Reqs = []Req{get(time.Second), get(g.pickD(2*time.Second, 3*time.Second, 5*time.Second)), unsafe, get(D + time.Second), get(g.pickD(time.Second, 10*time.Second))}
+	et := Hdr{"ETag", []string{`"v1"`}}
+	var vary []Hdr
+	if g.chance(0.3) {
+		vary = []Hdr{{"Vary", []string{g.pick("Accept-Encoding", "X-Custom", "Accept-Encoding, X-Custom")}}}
+	}
+	first := tRep(0, 200, g.pick("max-age=1, stale-while-revalidate=3600", "max-age=0, stale-while-revalidate=60", "max-age=2, stale-while-revalidate=3600"), append([]Hdr{et}, vary...)...)
+	late := tRep(1, 304, g.pick("max-age=3600", "max-age=60", "max-age=3600, stale-while-revalidate=60"), append([]Hdr{et}, vary...)...)
+	if g.chance(0.2) {
+		late = tRep(1, 200, "max-age=3600", append([]Hdr{{"ETag", []string{`"v2"`}}}, vary...)...)
+	}
+	c.Script = []ScriptEntry{{Delay: 0, Plain: first, Cond: first}, {Delay: D, Plain: late, Cond: late},
+		{Delay: 0, Plain: tRep(2, g.pickI(200, 201, 204, 303, 200), "", loc...), Cond: tRep(2, 200, "", loc...)}}
+	for i := 3; i < 9; i++ {
+		r := tRep(i, 200, "max-age=60", et)
+		c.Script = append(c.Script, ScriptEntry{Delay: 0, Plain: r, Cond: r})
+	}
+	return c
+}
+
+// genTwoMatchCase (C09): two stored responses with different Vary field sets both match the final
+// request; the order of their Date fields differs from the order in which they were received, and the
+// one with the older Date is stale by the time of the final request.
+func (g *G) genTwoMatchCase(p *Profile, id string) *Case {
+	c := &Case{ID: id, Stream: "M", SWRTimeout: 0}
+	res := g.intn(2)
+	ae := g.pick("gzip", "br")
+	ae2 := map[string]string{"gzip": "identity", "br": "gzip"}[ae]
+	xc := g.pick("a", "b")
+	xc2 := map[string]string{"a": "b", "b": "a"}[xc]
+	// first stored: selected by Accept-Encoding; second stored: selected by X-Custom; the final request matches both
+	r1 := Req{Gap: time.Second, Method: "GET", URL: g.urlFor(res, false), Hdrs: []Hdr{{"Accept-Encoding", []string{ae}}, {"X-Custom", []string{xc2}}}}
+	r2 := Req{Gap: g.pickD(time.Second, 2*time.Second), Method: "GET", URL: g.urlFor(res, g.chance(0.3)), Hdrs: []Hdr{{"Accept-Encoding", []string{ae2}}, {"X-Custom", []string{xc}}}}
+	r3 := Req{Gap: g.pickD(time.Second, 3*time.Second), Method: "GET", URL: g.urlFor(res, g.chance(0.3)), Hdrs: []Hdr{{"Accept-Encoding", []string{ae}}, {"X-Custom", []string{xc}}}}
+	c.Reqs = []Req{r1, r2, r3, r3}
+	c.Reqs[3].Gap = time.Second
+	t1 := epoch.Add(time.Second)
+	older := g.pickD(30*time.Second, 100*time.Second, time.Hour)
+	d1 := Hdr{"Date", []string{httpDate(t1)}}
+	d2 := Hdr{"Date", []string{httpDate(t1.Add(-older))}}
+	long, short := "max-age=3600", g.pick("max-age=5", "max-age=20, must-revalidate", "max-age=10")
+	a := tRep(0, 200, long, d1, Hdr{"Vary", []string{"Accept-Encoding"}}, Hdr{"ETag", []string{`"v1"`}})
+	b := tRep(1, 200, short, d2, Hdr{"Vary", []string{"X-Custom"}}, Hdr{"ETag", []string{`"v2"`}})
+	if g.chance(0.3) {
+		// the other way round: the later one is the newer and the fresh one
+		a = tRep(0, 200, short, d2, Hdr{"Vary", []string{"Accept-Encoding"}}, Hdr{"ETag", []string{`"v1"`}})
+		b = tRep(1, 200, long, d1, Hdr{"Vary", []string{"X-Custom"}}, Hdr{"ETag", []string{`"v2"`}})
+	}
+	c.Script = []ScriptEntry{{Plain: a, Cond: a}, {Plain: b, Cond: b}}
+	for i := 2; i < 8; i++ {
+		r := tRep(i, 200, "max-age=60", Hdr{"Vary", []string{"Accept-Encoding"}})
+		c.Script = append(c.Script, ScriptEntry{Plain: r, Cond: tRep(i, 304, "")})
+	}
+	return c
+}
+
+// genFor: the generator of case number i of a profile (targeted shapes are mixed into some profiles)
+func (g *G) genFor(p *Profile, id string, i int) *Case {
+	switch {
+	case p.Name == "repeat":
+		return g.genRepeatCase(p, id)
+	case p.Name == "inval" && i%8 == 3:
+		return g.genLateRevalCase(p, id)
+	case (p.Name == "hit" || p.Name == "vary") && i%10 == 5:
+		return g.genTwoMatchCase(p, id)
+	}
+	return g.genCase(p, id)
+}
